@@ -87,7 +87,7 @@ pub fn run(out: &mut Out, seed: u64, tier: &str) {
                 None => { out.case(&input, "wrote unknown"); out.oracle_fail("opt.xyz matches neither the UFF nor the RB library optimisation to the written precision", &replay); }
                 Some((kind, res)) => {
                     out.case(&input, &format!("wrote {} {}", kind, fname));
-                    if !(res.e1 <= res.e0 + 1e-9 * res.e0.abs().max(1.0)) && res.e1.is_finite() { out.oracle_fail(&format!("optimised structure is higher in energy ({} -> {})", res.e0, res.e1), &replay); }
+                    if crate::s_opt::in_domain(&mr, res.e0) && !(res.e1 <= res.e0 + 1e-9 * res.e0.abs().max(1.0)) && res.e1.is_finite() { out.oracle_fail(&format!("optimised structure is higher in energy ({} -> {})", res.e0, res.e1), &replay); }
                 }
             }
         }
